@@ -62,6 +62,8 @@ def array_names(fn: ast.FunctionDef, array_params: Set[str]) -> Set[str]:
         if isinstance(e, ast.Compare):
             return is_arr(e.left) or any(is_arr(c) for c in e.comparators)
         if isinstance(e, ast.Subscript):
+            if isinstance(e.value, ast.Call) and _funcname(e.value.func) == "where" and len(e.value.args) == 1:
+                return True   # np.where(cond)[k] is an index array
             if not is_arr(e.value):
                 return False
             sl = e.slice
